@@ -218,6 +218,12 @@ class BaseSection(base.Sectionable):
             return
 
         term = terminology.load(url)
+        if term is None:
+            # The included file could not be fetched or parsed: keep the
+            # reference unresolved so nested loading does not break.
+            self._include = new_value
+            return
+
         new_section = term.get_section_by_path(
             path) if path is not None else term.sections[0]
 
